@@ -37,7 +37,8 @@ func scaleFamiliesBuild() []*scaleFam {
 		{"a literal as match subject, bound by name, assigned in the body, then the literal again", "C13"}, {"a literal as match subject, bound by name, assigned in the body, then the literal again", "C19"},
 		{"root selectors with a variable of their own, value after value", "C10"}, {"faults inside a root selector are positioned in the selector", "C11"}, {"faults inside a root selector are positioned in the selector", "C20"},
 		{"n control-flow signals that leave a match arm, a call or a loop through an expression", "C08"}, {"n control-flow signals that leave a match arm, a call or a loop through an expression", "C02"},
-		{"a match case with an expression body that is left by next", "C08"}, {"a failing operator in every kind of rule", "C05"}} {
+		{"a match case with an expression body that is left by next", "C08"}, {"a failing operator in every kind of rule", "C05"},
+		{"what one special rule stores in $ and what the next one sees", "C15"}} {
 		for _, f := range all {
 			if f.Name == also[0] {
 				g := *f
@@ -77,6 +78,11 @@ func scaleSchemas() []*scaleFam {
 				fmt.Fprintf(&w, "e %d\n", k)
 			}
 			return scaleCase{Prog: prog, Files: []inFile{{Name: "in.json", Text: "[7, 8]"}}, Want: w.String()}
+		}},
+		{Prop: "C02", Name: "n records that each end in next inside two nested statements", Max: 400000, QMax: 200000, Build: func(n int) scaleCase {
+			in := "[" + strings.TrimSuffix(strings.Repeat("1,2,", (n+1)/2), ",") + "]"
+			cnt := 2 * ((n + 1) / 2)
+			return scaleCase{Prog: "{ if ($ > 0) { c++; if ($ == 1) { next } } }\n{ d++; next }\n{ print \"never\" }\nEND { print c, d, $index; if (1) { if (1) { if (1) { print \"ok\" } } } }\n", Files: []inFile{{Name: "in.json", Text: in}}, Want: fmt.Sprintf("%d %d %d\nok\n", cnt, cnt/2, cnt-1), NoModel: n > 20000}
 		}},
 		{Prop: "C02", Name: "an array of n records", Max: 70000, QMax: 5000, Build: func(n int) scaleCase {
 			prog := "{ c++; s += $; if ($index != c - 1) { bad++ } }\n$ % 1000 == 0 { print $index, $ }\nEND { print c, s, bad is unknown, $index }\n"
